@@ -26,7 +26,7 @@ ASSUMPTIONS = [
 
 # sides with every small prime factor (13 and 17 are not "FFT-friendly" lengths: a padded or resampled transform shows there)
 SHAPES = [(4, 4, 4), (5, 5, 5), (6, 6, 6), (7, 7, 7), (5, 6, 7), (8, 6, 4), (13, 13, 13), (9, 11, 13), (6, 17, 10)]
-PAIRS = ["same", "ab", "ba", "a3b", "2ab", "neg", "bandlimited", "emptyshell"]
+PAIRS = ["same", "ab", "ba", "a3b", "2ab", "neg", "bandlimited", "emptyshell", "int16-float32", "float32-int16", "bool-float64", "uint8-uint8", "float64-float32"]  # the last five: inputs of different / non-float dtypes
 
 
 def _dfreqs(shape):
@@ -105,6 +105,17 @@ def _images(pair, shape, seed):
         return (2 * a).astype(np.float32), b
     if pair == "neg":
         return a, (-a).astype(np.float32)
+    if pair in ("int16-float32", "float32-int16", "bool-float64", "uint8-uint8", "float64-float32"):
+        ai = np.round(a * 700).astype(np.int16)
+        if pair == "int16-float32":
+            return ai, (0.01 * b).astype(np.float32)
+        if pair == "float32-int16":
+            return (0.01 * b).astype(np.float32), ai
+        if pair == "bool-float64":
+            return a > 0.3, b.astype(np.float64)
+        if pair == "uint8-uint8":
+            return np.clip(np.round(a * 40 + 120), 0, 255).astype(np.uint8), np.clip(np.round(b * 40 + 120), 0, 255).astype(np.uint8)
+        return a.astype(np.float64), b
     if pair == "bandlimited":
         f = np.fft.fftn(a)
         fr = np.meshgrid(*[np.fft.fftfreq(n) for n in shape], indexing="ij")
